@@ -55,6 +55,7 @@ type Options struct {
 	CrossVal      int           // concrete cross-validation samples per job (0 = none)
 	OneShotMs     int           // timeout of escalated one-shot solver runs
 	OneShotBudget time.Duration // per job and worker
+	ExploreBudget time.Duration // wall-clock budget of the symbolic exploration of one check (0 = none)
 }
 
 type Plan struct {
@@ -128,7 +129,12 @@ func RunJobs(w *symex.World, jobs []Job, opt Options, known map[string]bool) []*
 	if backend.Name == "" {
 		backend = smt.Backends["z3"]
 	}
+	// per structural case; a changed tree that forks on every element of a symbolic tensor is cut off here
+	// (reported as inconclusive for that case) instead of running for hours - what was found before counts
 	maxPaths := 60000
+	if opt.Tier != "thorough" {
+		maxPaths = 16000 // (the largest case of the unchanged tree explores 7776 paths)
+	}
 	var mu sync.Mutex
 	cond := sync.NewCond(&mu)
 	var queue []workItem
@@ -140,10 +146,23 @@ func RunJobs(w *symex.World, jobs []Job, opt Options, known map[string]bool) []*
 	overLimit := make([]bool, len(jobs))
 	parts := make([][]*symex.Explorer, len(jobs))
 
+	// wall-clock budget of the exploration (quick tier): past it the remaining work is dropped and the cases
+	// concerned are reported as inconclusive; what was found before, and the native runs that follow, still count
+	var deadline time.Time
+	if opt.ExploreBudget > 0 {
+		deadline = time.Now().Add(opt.ExploreBudget)
+	}
+	cut := map[int]bool{}
 	pop := func(prefer int) (workItem, bool) {
 		mu.Lock()
 		defer mu.Unlock()
 		for {
+			if len(queue) > 0 && !deadline.IsZero() && time.Now().After(deadline) {
+				for _, it := range queue {
+					cut[it.job] = true
+				}
+				queue = nil
+			}
 			if len(queue) > 0 {
 				idx := len(queue) - 1
 				if prefer >= 0 {
@@ -281,6 +300,9 @@ func RunJobs(w *symex.World, jobs []Job, opt Options, known map[string]bool) []*
 		}
 		if overLimit[i] {
 			m.Incon = append(m.Incon, symex.Inconclusive{What: fmt.Sprintf("path limit %d reached", maxPaths)})
+		}
+		if cut[i] {
+			m.Incon = append(m.Incon, symex.Inconclusive{What: fmt.Sprintf("exploration budget of %v used up: not all paths of this case were explored", opt.ExploreBudget)})
 		}
 		res[i].Exp = m
 	}
